@@ -266,7 +266,9 @@ static int cmd_run(const std::string &prop, const std::string &tier, uint64_t se
         arm_watchdog(cpu_budget(p));
         RunOut out;
         execute_plan(p, out, false, scratch, [&](int k, int m) { printf("CASE %llu %d %d\n", (unsigned long long)i, k, m); fflush(stdout); });
-        disarm_watchdog();
+        // not disarmed: a run that corrupted the heap of an un-instrumented build can make the harness's own bookkeeping
+        // (malloc inside libstdc++) spin for ever; the next arm_watchdog() replaces this one
+        arm_watchdog(cpu_budget(p) + 10);
         runs++; cases += out.cases;
         worlds[p.cfg.world + "/" + p.mode]++;
         total.merge(out.st);
@@ -294,7 +296,7 @@ static int cmd_run(const std::string &prop, const std::string &tier, uint64_t se
             RunOut again;
             arm_watchdog(cpu_budget(p));
             execute_plan(p, again, false, scratch);
-            disarm_watchdog();
+            arm_watchdog(cpu_budget(p) + 10);
             rechecked++;
             if (again.trace != out.trace || again.failed != out.failed) {
                 printf("NONDET %llu first=%s second=%s\n", (unsigned long long)i, hex64(out.trace).c_str(), hex64(again.trace).c_str());
@@ -302,6 +304,7 @@ static int cmd_run(const std::string &prop, const std::string &tier, uint64_t se
             }
         }
     }
+    arm_watchdog(60);
     J j = J::obj();
     j.set("from", J::num((long long)from)); j.set("next", J::num((long long)i)); j.set("runs", J::num((long long)runs)); j.set("cases", J::num((long long)cases));
     j.set("truncated", J::num((long long)truncated)); j.set("rechecked", J::num((long long)rechecked)); j.set("fails", J::num((long long)fails));
@@ -316,6 +319,7 @@ static int cmd_run(const std::string &prop, const std::string &tier, uint64_t se
     printf("STATS %s\n", j.dump().c_str());
     printf("DONE %llu\n", (unsigned long long)i);
     fflush(stdout);
+    disarm_watchdog();
     return 0;
 }
 
